@@ -1,0 +1,12 @@
+//go:build verif
+
+package ringbuf
+
+// VerifState returns the counters and the closed flag, read under the ring's
+// mutex. Used by the verification harness to tell a goroutine that is
+// legitimately blocked from one that missed its wake-up.
+func (r *Ring) VerifState() (readable int, writable int, closed bool) {
+	r.mutex.Lock()
+	defer r.mutex.Unlock()
+	return r.readable, r.writable, r.closed
+}
